@@ -693,3 +693,93 @@ Proof.
   rewrite (tr_bufs_load ext m4 (switch t1 i) r o tp l td u m' d fuel Hm4 Ht4 Hg4); rewrite ?Hs0; try assumption.
   reflexivity.
 Qed.
+
+(* ------------------------------------------------------------------ bufs_number *)
+Fixpoint c_renum (l : list cslot) (n : Z) : list cslot * Z :=
+  match l with
+  | [] => ([], n)
+  | s :: r => if is_null (cs_lb s) then (let (r', n') := c_renum r n in (s :: r', n'))
+              else (let (r', n') := c_renum r (n + 1) in (set_cs_id s (n + 1) :: r', n'))
+  end.
+Definition num_loop : stmt := match fn_body cf_bufs_number with SSeq _ (SSeq (SSeq _ w) _) => w | _ => SSkip end.
+
+Lemma c_renum_bound l : forall n, n <= snd (c_renum l n) <= n + Z.of_nat (length l).
+Proof.
+  induction l as [|s r IH]; intro n; cbn [c_renum length]; [cbn; lia|].
+  destruct (is_null (cs_lb s)).
+  - specialize (IH n). destruct (c_renum r n). cbn [snd] in *. lia.
+  - specialize (IH (n + 1)). destruct (c_renum r (n + 1)). cbn [snd] in *. lia.
+Qed.
+Lemma lbs_ok_upd t i s' : lbs_ok t -> ptr_val (cs_lb s') -> lbs_ok (upd t i s').
+Proof.
+  intros H H'. unfold lbs_ok, upd in *. apply Forall_app. split; [apply Forall_firstn'; exact H|].
+  constructor; [exact H'|apply Forall_skipn'; exact H].
+Qed.
+Lemma upd_split {A} (l : list A) i x : (i < length l)%nat -> firstn i (upd l i x) = firstn i l /\ skipn (S i) (upd l i x) = skipn (S i) l /\ nth_error (upd l i x) i = Some x.
+Proof.
+  intro H. unfold upd. split; [|split].
+  - rewrite firstn_app, firstn_firstn, Nat.min_id, firstn_length, Nat.min_l, Nat.sub_diag by lia. cbn [firstn]. apply app_nil_r.
+  - rewrite skipn_app, firstn_length, Nat.min_l by lia. rewrite skipn_all2 by (rewrite firstn_length; lia).
+    replace (S i - i)%nat with 1%nat by lia. reflexivity.
+  - rewrite nth_error_app2 by (rewrite firstn_length; lia). rewrite firstn_length, Nat.min_l, Nat.sub_diag by lia. reflexivity.
+Qed.
+
+Lemma firstn_S_nth {A} (l : list A) i d : (i < length l)%nat -> firstn (S i) l = firstn i l ++ [nth i l d].
+Proof.
+  revert l; induction i as [|i IH]; intros [|x l] H; cbn [length] in H; try lia; [reflexivity|].
+  cbn [firstn nth app]. f_equal. apply IH. lia.
+Qed.
+
+Lemma num_loop_ok call : forall k i fuel m t n, tab_at m t -> tab_ok t -> lbs_ok t -> (i + k = 16)%nat -> (k < fuel)%nat -> 0 <= n <= Z.of_nat i ->
+  exec call fuel num_loop (mkst [VInt n; VInt (Z.of_nat i)] m) =
+  ONormal (mkst [VInt (snd (c_renum (skipn i t) n)); VInt 16] (upd m G_bufs (tab_cells (firstn i t ++ fst (c_renum (skipn i t) n))))).
+Proof.
+  induction k as [|k IH]; intros i fuel m t n Hm Ht Hlb Hik Hf Hn; pose proof Ht as [Hl Hs]; (destruct fuel as [|fuel]; [lia|]);
+    unfold num_loop; cbn [fn_body cf_bufs_number]; rewrite exec_for; xstep; len16; xstep;
+    rewrite (wrap_U64_id (Z.of_nat i)) by lia; change (wrap U64 16) with 16.
+  - assert (i = 16%nat) by lia. subst i. change (Z.of_nat 16 <? 16) with false. xstep.
+    rewrite skipn_all2 by lia. cbn [c_renum fst snd]. rewrite firstn_all2, app_nil_r by lia.
+    unfold tab_at in Hm. rewrite (upd_self m G_bufs _ Hm). reflexivity.
+  - destruct (Z.ltb_spec (Z.of_nat i) 16); [|lia]. xstep.
+    rewrite (nths_skipn t i) by lia. cbn [c_renum].
+    slot_off i 1%nat.
+    assert (Hb : (G_bufs < length m)%nat) by (apply nth_error_Some; unfold tab_at in Hm; congruence).
+    destruct (lbs_nth t i Hlb ltac:(lia)) as [E|[b [o E]]].
+    + rewrite (tab_load m t i 1 (VInt 0) _ Hm Hs) by (try lia; cbn [cs_tail nth_error]; congruence). xstep. cbn [ptr_cmp]. xstep.
+      rewrite E. cbn [is_null]. rewrite chk_I32 by lia. xstep. replace (Z.of_nat i + 1) with (Z.of_nat (S i)) by lia.
+      specialize (IH (S i) fuel m t n Hm Ht Hlb ltac:(lia) ltac:(lia) ltac:(lia)).
+      unfold num_loop in IH; cbn [fn_body cf_bufs_number] in IH. rewrite IH.
+      destruct (c_renum (skipn (S i) t) n) as [r' n'] eqn:Er. cbn [fst snd].
+      rewrite (firstn_S_nth t i cs_zero) by lia. rewrite <- app_assoc. reflexivity.
+    + rewrite (tab_load m t i 1 (VPtr b o) _ Hm Hs) by (try lia; cbn [cs_tail nth_error]; congruence). xstep. cbn [ptr_cmp]. xstep.
+      rewrite E. cbn [is_null]. rewrite chk_I32 by lia. xstep.
+      rewrite (wrap_I16_id (n + 1)) by lia. rewrite (wrap_I16_id (n + 1)) by lia.
+      match goal with |- context [store m G_bufs ?z ?v] => replace z with (Z.of_nat (41 * i + (32 + 6))) by lia end.
+      rewrite (tab_store_fld m t i 6 (VInt (n + 1)) _ (set_cs_id (nths t i) (n + 1)) Hm Ht) by (try lia; reflexivity). xstep.
+      rewrite chk_I32 by lia. xstep. replace (Z.of_nat i + 1) with (Z.of_nat (S i)) by lia.
+      set (t' := upd t i (set_cs_id (nths t i) (n + 1))).
+      assert (Hsi : slot_ok (nths t i)) by (rewrite Forall_forall in Hs; apply Hs, nth_In; lia).
+      assert (Ht' : tab_ok t') by (apply tab_ok_upd; [exact Ht|exact Hsi|lia]).
+      assert (Hlb' : lbs_ok t') by (apply lbs_ok_upd; [exact Hlb|cbn [set_cs_id cs_lb]; rewrite E; right; eauto]).
+      specialize (IH (S i) fuel (upd m G_bufs (tab_cells t')) t' (n + 1) (tab_at_upd m t t' Hm) Ht' Hlb' ltac:(lia) ltac:(lia) ltac:(lia)).
+      unfold num_loop in IH; cbn [fn_body cf_bufs_number] in IH. rewrite IH. rewrite upd_upd by exact Hb.
+      destruct (upd_split t i (set_cs_id (nths t i) (n + 1)) ltac:(lia)) as (F1 & F2 & F3). fold t' in F1, F2, F3.
+      rewrite F2. destruct (c_renum (skipn (S i) t) (n + 1)) as [r' n'] eqn:Er. cbn [fst snd].
+      assert (Hl' : length t' = 16%nat) by (destruct Ht'; assumption).
+      rewrite (firstn_S_nth t' i cs_zero) by lia. rewrite F1, (nth_error_nth t' i cs_zero F3), <- app_assoc. reflexivity.
+Qed.
+
+(* bufs_number(): the occupied slots (lb != NULL) get the ids 1, 2, ... in slot order, bufs_cnt their number; every other cell of
+   the table is kept.  For any table. *)
+Theorem tr_bufs_number m t c0 d fuel : tab_at m t -> tab_ok t -> lbs_ok t -> cell_at m G_bufs_cnt c0 -> (16 < fuel)%nat ->
+  callf cprog fuel (S d) F_bufs_number [] m
+  = Ok (VUndef, upd (upd m G_bufs (tab_cells (fst (c_renum t 0)))) G_bufs_cnt [VInt (snd (c_renum t 0))]).
+Proof.
+  intros Hm Ht Hlb Hc Hf. enter F_bufs_number cf_bufs_number. rewrite exec_seq, exec_expr. xcbn. rewrite exec_seq, exec_seq, exec_expr. xcbn.
+  pose proof (num_loop_ok (callf cprog fuel d) 16 0 fuel m t 0 Hm Ht Hlb ltac:(lia) Hf ltac:(lia)) as Hloop.
+  unfold num_loop in Hloop; cbn [fn_body cf_bufs_number] in Hloop. change (Z.of_nat 0) with 0 in Hloop. rewrite Hloop. cbn [skipn firstn app].
+  xstep. pose proof (c_renum_bound t 0) as Hbd. destruct Ht as [Hl Hs]. rewrite Hl in Hbd.
+  rewrite wrap_I32_id by lia.
+  assert (Hb : (G_bufs < length m)%nat) by (apply nth_error_Some; unfold tab_at in Hm; congruence).
+  rewrite (store_cell _ G_bufs_cnt c0); [reflexivity|]. apply cell_at_upd_other; [exact Hb|discriminate|exact Hc].
+Qed.
